@@ -16,6 +16,8 @@ from graphql import build_schema, parse
 from mc import clients, corpus, genpkg, inputs, pool
 from mc.report import Report
 
+SHP_TYPES = ["Int", "Nested", "Kind"]   # input FIELDS of every wrapper shape (one input type per shape)
+SHP_SDL = ""
 TYPES = ["String", "Int", "Float", "Boolean", "ID", "Kind", "In", "Rec", "Blob"]
 DEFAULTS = {"String": '"d"', "Int": "3", "Float": "0.5", "Boolean": "true", "ID": '"x"', "Kind": "B", "In": '{req: "r"}', "Rec": '{id: "1"}', "Blob": "1"}
 
@@ -25,10 +27,18 @@ def schema_i():
     for t in TYPES:
         for i, shape in enumerate(corpus.SHAPES):
             fields.append(f"  f_{t}_{i}(x: {shape.replace('T', t)}): String")
+    shp = []
+    for t in SHP_TYPES:
+        for i, shape in enumerate(corpus.SHAPES):
+            shp.append(f"input Shp{t}{i} {{ v: {shape.replace('T', t)} tail: Int }}")
+            fields.append(f"  shp_{t}_{i}(x: Shp{t}{i}): String")
+    global SHP_SDL
+    SHP_SDL = "\n".join(shp) + "\n"
     return """
 enum Kind { A B in }
 scalar Blob
 scalar Stamp
+scalar Count
 input Win { at: Stamp ats: [Stamp!] grid: [[Stamp]] label: String }
 input Nested { v: Int tags: [String!] }
 input In { a: Int req: String! kind: Kind nested: Nested nums: [Int!] camelCase: Int class: Int copy: Int dflt: Int = 5 }
@@ -37,11 +47,12 @@ type Query {
 %s
   multi(a: Int, b: String, c: Kind, d: [Int]): String
   stamp(x: Stamp): String
+  count(n: Count, m: Count): String
   win(x: Win, ws: [Win!]): String
 }
 type Mutation { mmulti(a: Int!, b: String): String mstamp(x: Stamp): String }
 type Subscription { smulti(a: Int, b: String, c: Kind, d: [Int]): String  sin(x: In, r: Rec): String  swin(x: Win, at: Stamp): String }
-""" % "\n".join(fields)
+""" % "\n".join(fields) + SHP_SDL
 
 
 SCHEMA_I = schema_i()
@@ -82,6 +93,12 @@ def build_cases(tier):
                 for cfg in cfgs:
                     cases.append(dict(kind="typed", query=q, op="V", vars=[("x", vt, dflt)], options=cfg,
                                       tags={f"type:{t}", f"shape:{shape}", "default" if dflt else "nodefault"}))
+    # input fields of every wrapper shape: what the model lets through must reach the resolver (null items where the item type is nullable)
+    for t in SHP_TYPES:
+        for i, shape in enumerate(corpus.SHAPES):
+            for cfg in ([{}] if tier == "quick" and not (i in (3, 9) and t == "Int") else [{}, {"async_client": False}, {"convert_to_snake_case": False}]):
+                cases.append(dict(kind="typed", query=f"query S($x: Shp{t}{i}!) {{ shp_{t}_{i}(x: $x) }}\n", op="S", vars=[("x", f"Shp{t}{i}!", False)], options=cfg, menu_cap=40,
+                                  tags={f"field_type:{t}", f"field_shape:{shape}", "input_field_shapes"}))
     for n in NAME_CATALOGUE:
         for cfg in ({}, {"convert_to_snake_case": False}):
             q = f"query N(${n}: Int, $other: String) {{ multi(a: ${n}, b: $other) }}\n"
@@ -121,6 +138,10 @@ def build_cases(tier):
                 continue
             cases.append(dict(kind="sub" if "subscription" in q2 else "scalar", query=q2, op=q2.split("(")[0].split()[1], vars=vs, options=dict(cfg), scalars=True,
                               tags={"configured_scalar"} | ({"subscription"} if "subscription" in q2 else set())))
+    # a NULLABLE top-level variable of a configured scalar, called with present values only - among them a falsy one (0)
+    for cfg in ({}, {"async_client": False}, {"opentelemetry_client": True}):
+        cases.append(dict(kind="scalar", query="query T9($n: Count, $m: Count!) { count(n: $n, m: $m) }\n", op="T9", vars=[("n", "Count", False), ("m", "Count!", False)], options=dict(cfg), scalars=True,
+                          present_only=["n"], tags={"configured_scalar", "nullable_scalar_present_values"}))
     # two variables of one configured scalar in one operation, and in two operations of one package (each evaluated)
     two = "query T8($from: Stamp!, $to: Stamp!) { stamp(x: $from) s2: stamp(x: $to) }\n"
     cases.append(dict(kind="scalar", query=two, op="T8", vars=[("from", "Stamp!", False), ("to", "Stamp!", False)], options={}, scalars=True, tags={"configured_scalar", "scalar_twice"}))
@@ -150,13 +171,25 @@ import datetime
 
 def to_epoch(value):
     return int(value.timestamp())
+
+
+def count_to_wire(value):
+    if not isinstance(value, int) or isinstance(value, bool):
+        raise TypeError(f"count_to_wire({value!r})")
+    return "n" + str(value)
 '''
-STAMP_VALUES = {"Stamp": [0, 86400]}
+STAMP_VALUES = {"Stamp": [0, 86400], "Count": [5, 0]}   # (Count 0: a valid, non-null, FALSY Python value)
 
 
 def stamp_build(name, v):
     import datetime
+    if name == "Count":
+        return v
     return datetime.datetime.fromtimestamp(v, tz=datetime.timezone.utc)
+
+
+def stamp_wire(name, v):
+    return "n" + str(v) if name == "Count" else v
 
 
 def opcheck_kind(options):
@@ -181,7 +214,7 @@ def evaluate(case):
         if case.get("scalars"):
             files = {"stamp_mod.py": STAMP_MOD}
             options = dict(options, files_to_include=[f"{d}/stamp_mod.py"],
-                           scalars={"Stamp": {"type": "datetime.datetime", "serialize": ".stamp_mod.to_epoch"}})
+                           scalars={"Stamp": {"type": "datetime.datetime", "serialize": ".stamp_mod.to_epoch"}, "Count": {"type": "int", "serialize": ".stamp_mod.count_to_wire"}})
         custom = STAMP_VALUES if case.get("scalars") else None
         if case.get("introspection"):
             genpkg.serve_introspection(SCHEMA_I)
@@ -206,6 +239,11 @@ def evaluate(case):
             m = m[:cap]
             from graphql import is_non_null_type
             required = is_non_null_type(t) and not dflt
+            if vn in (case.get("present_only") or ()):
+                # only present values for this nullable variable (omitted / None at a configured scalar are C07's recorded findings)
+                m = [x for x in m if x[0] == "custom"]
+                menus[vn] = (m, False, True)
+                continue
             menus[vn] = (m, required, is_non_null_type(t))
         # call plans: vary one variable at a time, others at their first value (or omitted)
         plans = []
@@ -254,7 +292,7 @@ def evaluate(case):
                 P.append(("call_failed", f"{st}: {val!r} (requests sent: {len(captured)})", ctx))
                 continue
             sent = captured[0].get("variables")
-            ref = {vn: inputs.ref_wire(v) for vn, v in plan.items() if v != inputs.OMIT}
+            ref = {vn: inputs.ref_wire(v, stamp_wire) for vn, v in plan.items() if v != inputs.OMIT}
             errs, rec, exerrs = inputs.run_reference(schema, captured[0]["query"], sent, captured[0].get("operationName"))
             if errs:
                 P.append(("coercion_rejects_sent_variables", f"sent {json.dumps(sent)}: {errs[:2]}", ctx))
